@@ -45,6 +45,9 @@ pub enum Fault {
     BTextWithLen { b_text: String, len: usize },
     /// the positional form `[registers, b, buildhasher]` with registers resized to `len`
     SeqDoc { b_text: String, len: usize },
+    /// fields in the given order *and* registers resized to `len` (validation must not depend on
+    /// the order in which the fields arrive)
+    ReorderedLen { perm: [u8; 3], len: usize },
 }
 
 #[derive(Clone, Debug, Serialize, Deserialize)]
@@ -76,7 +79,12 @@ pub fn catalogue(b: usize, m: usize) -> Vec<Fault> {
             f.push(Fault::BText(ob.to_string()));
         }
     }
-    for l in [0usize, 1, m - 1, m + 1, m / 2, m * 2, 15, 16, 17] {
+    for p in [[0u8, 1, 2], [1, 0, 2], [2, 1, 0], [2, 0, 1], [1, 2, 0], [0, 2, 1]] {
+        for l in [0usize, m - 1, m + 1, 3 * m] {
+            f.push(Fault::ReorderedLen { perm: p, len: l });
+        }
+    }
+    for l in [0usize, 1, m - 1, m + 1, m / 2, m * 2, 3 * m, 5 * m, 6 * m, 15, 16, 17, 48] {
         if l != m {
             f.push(Fault::RegsLen(l));
         }
@@ -205,6 +213,11 @@ pub fn corrupt(base: &Hll, valid: &[u8], fault: &Fault, other_valid: &dyn Fn(usi
             r.resize(*len, 0);
             build_doc(&regs_to_json(&r), b_text, &hj, &std, "")
         }
+        Fault::ReorderedLen { perm, len } => {
+            let mut r: Vec<u8> = regs.iter().cloned().take(*len).collect();
+            r.resize(*len, 0);
+            build_doc(&regs_to_json(&r), &bj, &hj, perm, "")
+        }
         Fault::SeqDoc { b_text, len } => {
             let mut r: Vec<u8> = regs.iter().cloned().take(*len).collect();
             r.resize(*len, 0);
@@ -235,7 +248,7 @@ fn fault_kind(f: &Fault) -> &'static str {
     match f {
         Fault::None => "none",
         Fault::BText(_) => "store_field_range",
-        Fault::RegsLen(_) | Fault::RegsForOtherB { .. } | Fault::BTextWithLen { .. } => "store_field_range",
+        Fault::RegsLen(_) | Fault::RegsForOtherB { .. } | Fault::BTextWithLen { .. } | Fault::ReorderedLen { .. } => "store_field_range",
         Fault::SeqDoc { .. } => "store_field_retype",
         Fault::RegsText(_) | Fault::RegValue { .. } | Fault::HasherText(_) => "store_field_retype",
         Fault::Drop(_) => "store_field_drop",
@@ -252,7 +265,7 @@ fn fault_class(f: &Fault) -> &'static str {
         Fault::None => "round-trip",
         Fault::BText(_) | Fault::BTextWithLen { .. } => "b-corrupted",
         Fault::SeqDoc { .. } => "positional-form",
-        Fault::RegsLen(_) | Fault::RegsForOtherB { .. } | Fault::RegsText(_) => "registers-corrupted",
+        Fault::RegsLen(_) | Fault::RegsForOtherB { .. } | Fault::RegsText(_) | Fault::ReorderedLen { .. } => "registers-corrupted",
         Fault::RegValue { .. } => "register-value-corrupted",
         Fault::HasherText(_) => "hasher-corrupted",
         Fault::Drop(_) => "field-dropped",
